@@ -149,6 +149,23 @@ def check_thresholds(ctx: Ctx):
                        f"rule '{nm}' computes {e.show()} instead of {desc[nm]} of {data}: the threshold is not the documented one and does not follow affine changes of the intensities")
         except NotAlgebraic as exc:
             ctx.undecided("THRESH", tag, (fi, top), f"{exc}: {U(v)[:60]}")
+    # the extrema are combined as floats: min() and max() of an integer image are scalars of the image's own dtype, and their
+    # sum wraps around (int8: 100 + 120 = −36) before any conversion applied to the sum
+    def _raw_reduction(x):
+        if isinstance(x, ast.Call) and isinstance(x.func, ast.Attribute) and U(x.func.value) == data and x.func.attr in ("min", "max", "sum") and not x.args:
+            return True
+        if isinstance(x, ast.Call) and (U(x.func).split(".")[-1] in ("min", "max", "amin", "amax", "sum")) and len(x.args) == 1 and U(x.args[0]) == data:
+            return True
+        return False
+
+    for nm in ("extrema", "auto"):
+        v = br.get(nm)
+        if v is None or isinstance(v, tuple) or isinstance(v, str):
+            continue
+        raw = [b for b in ast.walk(v) if isinstance(b, ast.BinOp) and isinstance(b.op, (ast.Add, ast.Sub, ast.Mult)) and _raw_reduction(b.left) and _raw_reduction(b.right)]
+        ctx.decide(not raw, "THRESH", f"{site}:threshold[{nm}]:dtype", (fi, raw[0]) if raw else (fi, top), "minimum and maximum are converted to float before they are combined",
+                   f"`{U(raw[0])[:70] if raw else ''}` adds the extreme values in the image's own dtype: for integer images the sum wraps around (int8 image with values 100/120: "
+                   "100 + 120 = −36), so the threshold is not the midpoint of the extreme values and every cell is reported as one droplet")
     v = br.get("otsu")
     ok = v is not None and not isinstance(v, tuple) and isinstance(v, ast.Call) and (m.callee(fv.mod, v) or U(v.func)).endswith("threshold_otsu") and [U(a) for a in v.args] == [data] and not v.keywords
     ctx.decide(ok, "THRESH", f"{site}:threshold[otsu]", (fi, top), "threshold = threshold_otsu(field values) with the default 256 bins",
@@ -448,6 +465,10 @@ def check(ctx: Ctx):
     check_filter(ctx)
     col.check_safe_removal(ctx, f"{EM}.Emulsion.remove_small", "radius", (ast.LtE,), "radius <= min_radius", param="min_radius")
     check_otsu(ctx)
+    from ..rules import purity as _purity
+
+    _purity.check_late_binding(ctx, ("droplets.image_analysis",))
+    ctx.expect("LATEBIND", 1)
     ctx.expect("THRESH", 9)
     ctx.expect("EXHAUST", 3)
     ctx.expect("GUARDSHAPE", 1)
